@@ -86,6 +86,21 @@ def files_contract(col, method, quick):
             g2 = AngularGrid(size=deg_t[want], method=method, cache=False)
             return (g2.degree == want and g2.size == deg_t[want]), f"AngularGrid(size={deg_t[want]}) -> ({g2.degree},{g2.size})"
         col.check(f"{method}:construct:{q}", chk2)
+    # requests by size through the constructor, from zero up (with and without an explicit degree argument beside it: the size wins)
+    sk = sorted(deg_t.values())
+    for q in sorted(set([0, 1, sk[0] - 1, sk[0], sk[0] + 1, sk[len(sk) // 2] - 1, sk[-1]])):
+        def chk3(q=q):
+            want_s = oracle(sk, q)
+            want_d = next(d for d, s in deg_t.items() if s == want_s)
+            import warnings as _w
+            for kw in ({"size": q}, {"degree": dk[1], "size": q}, {"degree": None, "size": np.int64(q)}):
+                with _w.catch_warnings():
+                    _w.simplefilter("ignore")
+                    g = AngularGrid(method=method, cache=False, **kw)
+                if g.degree != want_d or g.size != want_s or len(g.points) != want_s:
+                    return False, f"AngularGrid({kw}, method={method!r}) builds (degree, size) = ({g.degree}, {g.size}); smallest supported size >= {q} is {want_s} (degree {want_d})"
+            return True, None
+        col.check(f"{method}:construct-by-size:{q}", chk3, inputs={"method": method, "size": q})
 
 
 def converter_contract(col, g, method, k):
